@@ -327,6 +327,7 @@ fn main() {
     main_for(|tier| {
         let mut o = Opts::new(tier, if tier == "thorough" { 14 } else { 9 });
         o.min_depth = 4;
+        o.xcheck = tier == "thorough";
         o.rule = "per contract (gateway, gas service, operators, ITS, interchain token): every administrative entry point (ownership / operatorship transfer to a successor, to self and back; upgrade; migrate; operator-bypass rotation with a proof from the latest and from an older retained set; collect_fees; refund; add/remove operator; set/remove trusted chain; add/remove minter; owner mint; set_admin) x every candidate authoriser {initial owner, initial operator/collector, successor/beneficiary, stranger, nobody, the current holder signing altered arguments, the current holder authorising the same call on a twin contract}; all histories to fixpoint (payouts / mints / rotations bounded to 3); role queries and the affected configuration compared after every new state".into();
         (C06, o)
     });
